@@ -237,7 +237,11 @@ class Conciliation(Observer):
                     self._probe('restart_without_start_seen')
                     app_o = inst.supvisors.context.applications.get(ns.split(':')[0])
                     proc_o = app_o.processes.get(ns.split(':')[1]) if app_o else None
-                    if proc_o is not None:
+                    # a start of the application that failed meanwhile (no resource, FATAL) may have applied its
+                    # starting failure strategy (ABORT / STOP), which drops the starts still planned
+                    if app_o is not None and any(q.serial()['statename'] == 'FATAL' for q in app_o.processes.values()):
+                        self._probe('restart_dropped_after_starting_failure_skipped')
+                    elif proc_o is not None:
                         shown = proc_o.serial()
                         if shown['statename'] in ('STOPPED', 'EXITED') and not proc_o.running_identifiers:
                             self.violate('restart-not-started', dict(detail, process=ns, shown=shown['statename']),
